@@ -15,7 +15,7 @@ PID = "C11"
 RULE = ("programs (<=25 steps) over an instrumented class Tracked: construct, copy (var b = a, Tracked(a), clone), reference alias, store in vectors / maps / "
         "attributes, pop/clear containers, pass by value / & / const& / * / shared_ptr / shared_ptr<const> / base class / converted temporary (int -> "
         "Tracked), return by value / shared_ptr / unique_ptr, functions whose locals die on return / by script throw / by a throwing C++ callee, block "
-        "scopes, loops, closures capturing instances and loop variables called after the loop, instances handed to the C++ side (kept shared_ptr). "
+        "scopes, loops, closures capturing instances and loop variables called after the loop, instances handed to the C++ side (kept shared_ptr), a variable's instance replaced by C++ through shared_ptr&. "
         "Oracle: registry invariants (destroyed at most once, never touched after destruction, live count at every checkpoint == model, only "
         "harness-held instances survive the engine). non-trivial = >=1 instance crosses a frame boundary (returned, captured, stored in an outer "
         "container, converted temporary passed to C++) before a checkpoint; distinct = distinct programs")
@@ -42,6 +42,7 @@ STEP = st.one_of(
     st.fixed_dictionaries({"k": st.just("set"), "i": st.integers(0, 9)}),
     st.fixed_dictionaries({"k": st.just("tempchain"), "form": st.integers(0, 11)}),
     st.fixed_dictionaries({"k": st.just("tempchain"), "form": st.integers(0, 11)}),
+    st.fixed_dictionaries({"k": st.just("reseat")}),
     st.fixed_dictionaries({"k": st.just("chk")}),
     st.fixed_dictionaries({"k": st.just("chk")}),
 )
@@ -201,6 +202,16 @@ def build(c):
             L.append("%s.set(%d)" % (pick(s["i"]), payload))
         elif k == "tempchain":
             L.append(TEMPCHAINS[s["form"] % len(TEMPCHAINS)].replace("P", str(payload)).replace("N", str(n)))
+            crossed = True
+        elif k == "reseat":
+            # a C++ function taking std::shared_ptr<Tracked>& replaces the instance a variable owns: the old one dies, the variable (through
+            # every access path: mutable, const, copy) now means the new one
+            L.append("var rs%d = Tracked(%d)" % (n, payload))
+            L.append("rec(reseat(rs%d, %d))" % (n, payload + 1000))
+            L.append("rs%d.set(%d); rec(rs%d.get() + by_cref(rs%d) + by_value(rs%d))" % (n, payload + 2000, n, n, n))
+            L.append("var rc%d = rs%d" % (n, n))
+            objs += ["rs%d" % n, "rc%d" % n]
+            live += 2
             crossed = True
         elif k == "chk":
             L.append("rec(0)")      # any call: the engine releases the temporaries it saved for the previous call when the next one completes
